@@ -99,6 +99,8 @@ def _graph_queries_body(ctx, dn, G, m, nodes, exhaustive):
         windows = [(None, None)] + rng.sample(windows[1:], min(3, len(windows) - 1))
         if len(ids) > 1 and ids[0] + 1 < ids[1]:
             windows.append((ids[0] + 1, ids[-1]))     # explicit start in a gap: u absent at start
+        if ids[0] < 0 <= ids[-1]:
+            windows.append((0, ids[-1]))               # an explicit start that happens to be falsy
     for u in nodes:
         for v in [None] + list(nodes):
             if not exhaustive and v is not None and rng.random() < 0.5:
